@@ -168,6 +168,9 @@ func (r *hxFailRS) Seek(offset int64, whence int) (int64, error) {
 }
 
 // C12: content producers failing before / after emitting data.
+// hxC12Signer, if set, configures S/MIME signing on the message (c12sign.go)
+var hxC12Signer func(*Msg) bool
+
 func HarnessC12Producer() {
 	defer func() {
 		if r := recover(); r != nil {
@@ -247,6 +250,9 @@ func HarnessC12Producer() {
 			m.AttachReadSeeker("att.txt", &hxFailRS{data: []byte(hxFileData[1]), mode: fail}, WithFileEncoding(fe))
 		}
 		idx++
+	}
+	if hxC12Signer != nil && !hxC12Signer(m) {
+		return
 	}
 	w := &hxRecW{}
 	cnt, err := m.WriteTo(w)
